@@ -129,7 +129,7 @@ func c19(c *Check) {
 			if cl == "tendermint" {
 				return []string{"encoding/binary.(bigEndian).Uint64(g:encoding/binary.BigEndian, $0[len(g:tendermint/types.KeyIterateConsensusStatePrefix):][" + lo + "])"}
 			}
-			return []string{"cosmos-sdk/types.BigEndianToUint64($0[len(\"consensusStates/\"):][" + lo + "])"}
+			return []string{"cosmos-sdk/types.BigEndianToUint64($0[16:][" + lo + "])"}
 		}
 		var wants []string
 		for _, lo := range [][2]string{{"0:8", "8:"}, {":8", "8:"}, {"0:8", "8:16"}, {":8", "8:16"}} {
